@@ -75,7 +75,7 @@ def all_gellmann_matrix(d:int, /, tensor_n:int=1, with_I:bool=True):
     tensor_n = int(tensor_n)
     with_I = bool(with_I)
     assert (d>=2) and (tensor_n>=1)
-    ret = _all_gellmann_matrix_cache(d, tensor_n, with_I)
+    ret = _all_gellmann_matrix_cache(d, tensor_n, with_I).copy() #caller may modify the result in place
     return ret
 
 
